@@ -888,6 +888,23 @@ fn gen_c18(ctx: &mut Ctx) {
         let want = format!("send={} recv={} reply=", want_send, want_recv);
         ctx.monitor(res.starts_with(&want), "C18-pacing", &line, &format!("wanted [{}...] got [{}]", want, res));
     }
+    // reads that are interrupted, fragmented or fail before an in-progress report arrives: an interrupted or fragmented
+    // read is still that reply (paced); a failed read is an error, with nothing sent again
+    for (mi, m) in [format!("HE.{}", a), format!("QS.{}", a), format!("RO.{}.SLP", a)].iter().enumerate() {
+        for (si, st) in ["PLP", "PSP"].iter().enumerate() {
+            for (ri, rs) in [vec!["FT"], vec!["D2", "FT"], vec!["I", "D0"], vec!["FW"], vec!["I", "I", "D3", "I"], vec!["D0", "FE"]].iter().enumerate() {
+                if !ctx.tier_thorough && (mi + si + ri) % 3 != 0 {
+                    continue;
+                }
+                let tape = [enc_msg(&format!("RS.{}.{}", a, st)), enc_msg(&format!("RS.{}.{}", a, st))].concat();
+                let line = format!("TM {} {} {} /", m, hex_of_bytes(&tape), rs.join(" "));
+                let res = ctx.case(line.clone(), true, "faulty-reads-before-a-report");
+                let fails = rs.iter().any(|r| r.starts_with('F'));
+                let want = if fails { "send=0 recv=0 reply=ER".to_string() } else { format!("send=0 recv=1 reply=RS.{}.{}", a, st) };
+                ctx.monitor(res.starts_with(&want), "C18-pacing", &line, &format!("wanted [{}...] got [{}]", want, res));
+            }
+        }
+    }
     // a long busy period: several hundred in-progress reports in a row on one bus, every one of them paced; and a run of
     // other reports, none of them paced.  (Takes n x 100 ms of real time: left out where FDX_SKIP_SLOW is set.)
     if std::env::var("FDX_SKIP_SLOW").is_err() {
